@@ -1,5 +1,5 @@
 import Driver.Util
-import NixModel.Pure.Flush
+import NixModel.Pure.FlushOpen
 open Lean Nix.Flush
 
 namespace Driver.C17
@@ -7,10 +7,31 @@ namespace Driver.C17
 /-- driver state: the world and every key ever written (stores are functions; views are printed over
 these keys, in first-write order) -/
 structure St where
-  w : World
+  ow : OWorld
   keys : List Key
+  cfg : Cfg
 
-def St.init : St := ⟨World.init, []⟩
+/-- `reset` goes back to the configuration read off the source -/
+def St.init : St := ⟨OWorld.init, [], Gen.cfg⟩
+
+def libver? : String → Option Libver
+  | "earliest" => some .earliest | "v18" => some .v18 | "v110" => some .v110 | "v112" => some .v112
+  | "v114" => some .v114 | "v200" => some .v200 | "latest" => some .latest
+  | _ => none
+
+def libverName : Libver → String
+  | .earliest => "earliest" | .v18 => "v18" | .v110 => "v110" | .v112 => "v112"
+  | .v114 => "v114" | .v200 => "v200" | .latest => "latest"
+
+def flagsName : Flags → String
+  | .rdonly => "ACC_RDONLY" | .rdwr => "ACC_RDWR" | .trunc => "ACC_TRUNC"
+
+def modeName : Mode → String
+  | .readOnly => "r" | .readWrite => "a" | .overwrite => "w"
+
+def pathState? : String → Option PathState
+  | "missing" => some .missing | "empty" => some .empty | "file" => some .file
+  | _ => none
 
 def track (st : St) (k : Key) : List Key := if st.keys.contains k then st.keys else st.keys ++ [k]
 
@@ -20,7 +41,7 @@ def storeJson (keys : List Key) (s : Store) : Json :=
     | some v => some (Json.arr #[Json.str k, Json.str v])
     | none => none)).toArray
 
-def outcome (r : World × Option Nix.Err) : Json :=
+def outcome (r : OWorld × Option Nix.Err) : Json :=
   match r.2 with
   | none => ok Json.null
   | some e => err e
@@ -32,8 +53,8 @@ def mode? : String → Option Mode
   | _ => none
 
 def ev (st : St) (e : Ev) : St × Json :=
-  let r := step st.w e
-  ({ st with w := r.1 }, outcome r)
+  let r := stepO st.cfg st.ow e
+  ({ st with ow := r.1 }, outcome r)
 
 def handle (st : St) (j : Json) : St × Json :=
   match jArr j |>.toList with
@@ -49,20 +70,40 @@ def handle (st : St) (j : Json) : St × Json :=
   | [Json.str "exit"] => ev st .exit
   | [Json.str "wb", Json.arr ks] => ev st (.writeback (ks.toList.map jStr))
   | [Json.str "kill"] => ev st .kill
-  | [Json.str "is_open"] => (st, ok (Json.bool (isOpen st.w)))
+  | [Json.str "cfg", Json.str lo, Json.bool atArg] =>
+    -- the open path under another configuration (fapl probes of the harness): lower libver bound, create at
+    -- the named path
+    match libver? lo with
+    | some l => ({ st with cfg := ⟨l, atArg⟩ }, ok Json.null)
+    | none => (st, bad "C17: unknown libver")
+  | [Json.str "decide", Json.str ps, Json.str m] =>
+    -- File.__init__'s decision for a path state and a mode (no state change)
+    match pathState? ps, mode? m with
+    | some p, some md =>
+      (st, match openDecision p md with
+        | .create fl sm => ok (Json.arr #[Json.str "create", Json.str (flagsName fl), Json.str (modeName sm)])
+        | .openExisting fl sm => ok (Json.arr #[Json.str "open", Json.str (flagsName fl), Json.str (modeName sm)])
+        | .refuseRuntime => err .runtimeError
+        | .refuseInvalidFile => err .invalidFile)
+    | _, none => (st, err .valueError)
+    | none, _ => (st, bad "C17: unknown path state")
+  | [Json.str "is_open"] => (st, ok (Json.bool (isOpen st.ow.w)))
   | [Json.str "view"] =>
-    match view st.w with
+    match viewO st.ow with
     | some s => (st, ok (storeJson st.keys s))
     | none => (st, err .runtimeError)
   | [Json.str "disk"] =>
-    match st.w.disk with
+    match st.ow.w.disk with
     | some s => (st, ok (storeJson st.keys s))
     | none => (st, ok Json.null)
   | [Json.str "shape"] =>
     let pj (ps : List Prim) : Json := Json.arr (ps.map (fun p => Json.str (match p with
       | .gcCollect => "gcCollect" | .h5flush => "h5flush" | .h5close => "h5close"))).toArray
     (st, ok (Json.mkObj [("flush", pj Gen.fileFlushBody), ("close", pj Gen.fileCloseBody),
-                         ("exit", pj Gen.fileExitBody)]))
+                         ("exit", pj Gen.fileExitBody),
+                         ("fapl_low", Json.str (libverName Gen.cfg.low)),
+                         ("fapl_modelled", Json.bool (faplModelled Gen.faplCalls)),
+                         ("create_at_arg", Json.bool Gen.cfg.createAtArg)]))
   | _ => (st, bad "C17: unknown op")
 
 def main : IO Unit := loop St.init handle
